@@ -271,8 +271,11 @@ def make_callback(rec, kind, stop_at, overwrite=False):
         x, f = (arg.x, arg.fun) if is_result else (arg, None)
         rec.ev("cb", rec.pid(x), NOF if f is None else f2b(f))
         rec.user_calls.append(("cb", np.array(x, float)))
+        # the array is the user's to keep: remember the very object and what it held
+        rec.extra.setdefault("cb_kept", []).append((x, np.array(x, float), n[0]))
         if overwrite:
             x[...] = 1e300
+            rec.extra["cb_kept"][-1] = (x, np.array(x, float), n[0])
         if stop_at is not None and n[0] == stop_at:
             rec.ev("cbStop")
             raise StopIteration
